@@ -1592,3 +1592,160 @@ Proof.
            ++ rewrite GO by assumption. apply (oi_tbl I E _ Hg).
       * unfold o5. cbn [auxs with_auxs]. unfold keys_len. apply Forall_app. split; [exact HL|]. constructor; [exact Hkl|constructor].
 Qed.
+
+(* ---------------------------------------------------------------------------------------------- *)
+(** * E9. permuteDimensions *)
+
+Definition mk_slots (l : list (field * slot)) : obj :=
+  {| ndim := 0; orders := []; nknots := []; naxes := []; naux := 0; auxs := []; slots := l |}.
+
+Lemma get_put : forall l f g s, get_slot g (put_slot f s l) = if field_eqb f g then s else get_slot g l.
+Proof. intros l f g s. exact (get_set (mk_slots l) g f s). Qed.
+Lemma nodup_put : forall l f s, NoDup (map fst l) -> NoDup (map fst (put_slot f s l)).
+Proof. intros l f s H. exact (keys_nodup_set (mk_slots l) f s H). Qed.
+
+Lemma get_perm_slots : forall (sv : nat -> slot) p s base g,
+  get_slot g (fold_right (fun ij acc => put_slot (FKnot (fst ij)) (sv (snd ij)) acc) base (combine (seq s (length p)) p))
+  = match g with
+    | FKnot i => if (s <=? i) && (i <? s + length p) then sv (nth (i - s) p 0) else get_slot g base
+    | _ => get_slot g base
+    end.
+Proof.
+  intros sv p; induction p as [|a p IH]; intros s base g.
+  - simpl. destruct g; try reflexivity.
+    destruct (Nat.leb_spec s i); destruct (Nat.ltb_spec i (s + 0)); simpl; try reflexivity; lia.
+  - cbn [length seq combine fold_right fst snd]. rewrite get_put. rewrite IH.
+    destruct g; cbn [field_eqb]; try reflexivity.
+    destruct (Nat.eqb_spec s i) as [->|Hne].
+    + rewrite Nat.leb_refl. destruct (Nat.ltb_spec i (i + S (length p))); [|lia]. rewrite Nat.sub_diag. reflexivity.
+    + destruct (Nat.leb_spec (S s) i); destruct (Nat.leb_spec s i); try lia;
+      destruct (Nat.ltb_spec i (S s + length p)); destruct (Nat.ltb_spec i (s + S (length p))); try lia; cbn [andb]; try reflexivity.
+      replace (i - s) with (S (i - S s)) by lia. reflexivity.
+Qed.
+
+Lemma nodup_perm_slots : forall (sv : nat -> slot) l base, NoDup (map fst base) ->
+  NoDup (map fst (fold_right (fun ij acc => put_slot (FKnot (fst ij)) (sv (snd ij)) acc) base l)).
+Proof. intros sv l base H; induction l as [|a l IH]; simpl; [exact H|apply nodup_put; exact IH]. Qed.
+
+Lemma get_step_permute : forall o p g,
+  get (step_permute o p) g
+  = match g with FKnot i => if i <? length p then get o (FKnot (nth i p 0)) else get o g | _ => get o g end.
+Proof.
+  intros o p g. unfold get at 1, step_permute. cbn [slots]. unfold idx.
+  rewrite (get_perm_slots (fun j => get o (FKnot j))). destruct g; try reflexivity.
+  cbn [Nat.leb andb]. rewrite Nat.sub_0_r. reflexivity.
+Qed.
+
+Lemma is_perm_spec : forall n p, is_perm n p = true -> length p = n /\ Permutation (seq 0 n) p.
+Proof.
+  intros n p H. unfold is_perm in H. apply andb_true_iff in H. destruct H as [H1 H2].
+  apply Nat.eqb_eq in H1. split; [exact H1|].
+  apply NoDup_Permutation_bis; [apply seq_NoDup|rewrite seq_length; lia|].
+  intros i Hi. rewrite forallb_forall in H2. specialize (H2 i Hi). apply existsb_exists in H2.
+  destruct H2 as [j [Hj E]]. apply Nat.eqb_eq in E. subst j. exact Hj.
+Qed.
+
+Lemma prod_perm : forall a b, Permutation a b -> prod_list a = prod_list b.
+Proof.
+  intros a b H; induction H; simpl; auto; try congruence.
+  unfold prod_list in *. simpl. rewrite !Nat.mul_assoc, (Nat.mul_comm y x). reflexivity.
+Qed.
+
+Lemma map_nth_seq : forall (l : list nat) d, map (fun j => nth j l d) (seq 0 (length l)) = l.
+Proof.
+  induction l as [|a l IH]; intros d; simpl; [reflexivity|]. f_equal.
+  rewrite <- seq_shift, map_map. apply IH.
+Qed.
+
+Lemma prod_permute : forall l p, is_perm (length l) p = true -> prod_list (permute_list 0 l p) = prod_list l.
+Proof.
+  intros l p H. destruct (is_perm_spec _ _ H) as [_ HP]. unfold permute_list.
+  rewrite <- (prod_perm _ _ (Permutation_map (fun j => nth j l 0) HP)). rewrite map_nth_seq. reflexivity.
+Qed.
+
+Lemma nth_permute : forall l p i, i < length p -> nth i (permute_list 0 l p) 0 = nth (nth i p 0) l 0.
+Proof.
+  intros l p i Hi. unfold permute_list.
+  rewrite (nth_indep _ 0 ((fun j => nth j l 0) 0)) by (rewrite map_length; exact Hi).
+  rewrite (map_nth (fun j => nth j l 0)). reflexivity.
+Qed.
+
+Lemma rel_reindex : forall Fr o o' m (src : field -> field),
+  (forall g, get o' g = get o (src g)) -> (forall g1 g2, src g1 = src g2 -> g1 = g2) -> (forall g, exists g', src g' = g) ->
+  rel Fr o m -> rel Fr o' m.
+Proof.
+  intros Fr o o' m src G Hinj Hsur [Hm Hs Hi Hf Hc]. constructor; auto.
+  - intros f id b H. rewrite G in H. eauto.
+  - intros f g id b b' H1 H2. rewrite G in H1, H2. apply Hinj. eapply Hi; eauto.
+  - intros id b H. destruct (Hf _ _ H) as [H1 H2]. split; [exact H1|]. intros f b'. rewrite G. apply H2.
+  - intros id b H. destruct (Hc _ _ H) as [H1|[f H1]]; [left; exact H1|]. right.
+    destruct (Hsur f) as [g' E]. exists g'. rewrite G, E. exact H1.
+Qed.
+
+Lemma knot_dom : forall o i, obj_inv o -> get o (FKnot i) <> Null -> i < ndim o.
+Proof.
+  intros o i I H. pose proof (oi_dom I _ H) as Hd. apply in_full_fields in Hd. rewrite in_tbl_fields, in_aux_flds in Hd.
+  destruct Hd as [Hd|[[Hd|[j [Hj Hd]]]|[Hd|[j [Hj Hd]]]]]; try discriminate;
+    [simpl in Hd; intuition discriminate|inversion Hd; subst; exact Hj|intuition discriminate].
+Qed.
+
+Definition perm_src (p : list nat) (g : field) : field :=
+  match g with FKnot i => FKnot (if i <? length p then nth i p 0 else i) | _ => g end.
+
+Lemma permute_ok : forall Fr o m p, obj_inv o -> rel Fr o m -> ndim o <> 0 -> is_perm (ndim o) p = true ->
+  obj_inv (step_permute o p) /\ rel Fr (step_permute o p) m /\ auxs (step_permute o p) = auxs o.
+Proof.
+  intros Fr o m p I HR E0 Hp. destruct (is_perm_spec _ _ Hp) as [Hlen HP].
+  set (n := ndim o) in *.
+  assert (Hin : forall j, In j p <-> j < n).
+  { intros j. rewrite <- (Permutation_in' (eq_refl j) HP). rewrite in_seq. lia. }
+  assert (ND : NoDup p) by (eapply Permutation_NoDup; [exact HP|apply seq_NoDup]).
+  assert (Hlt : forall i, i < n -> nth i p 0 < n) by (intros i Hi; apply Hin; apply nth_In; lia).
+  set (o' := step_permute o p).
+  assert (G : forall g, get o' g = get o (perm_src p g)).
+  { intros g. unfold o'. rewrite get_step_permute. destruct g; try reflexivity. simpl. destruct (i <? length p); reflexivity. }
+  assert (Hinj : forall g1 g2, perm_src p g1 = perm_src p g2 -> g1 = g2).
+  { assert (Pinj : forall i1 i2, (if i1 <? length p then nth i1 p 0 else i1) = (if i2 <? length p then nth i2 p 0 else i2) -> i1 = i2).
+    { intros i1 i2. rewrite Hlen. destruct (Nat.ltb_spec i1 n) as [A|A]; destruct (Nat.ltb_spec i2 n) as [B|B]; intros E.
+      - apply (proj1 (NoDup_nth p 0) ND); lia.
+      - specialize (Hlt _ A). lia.
+      - specialize (Hlt _ B). lia.
+      - exact E. }
+    intros g1 g2 E. destruct g1; destruct g2; simpl in E; try discriminate; try reflexivity; try exact E;
+      try (inversion E; subst; reflexivity).
+    inversion E as [E']. apply Pinj in E'. subst. reflexivity. }
+  assert (Hsur : forall g, exists g', perm_src p g' = g).
+  { intros g. destruct g.
+    all: try match goal with |- exists g', _ = ?x => exists x; reflexivity end.
+    destruct (Nat.lt_ge_cases i n) as [A|A].
+    - destruct (In_nth p i 0 (proj2 (Hin i) A)) as [k [Hk Ek]]. exists (FKnot k). simpl.
+      destruct (Nat.ltb_spec k (length p)); [rewrite Ek; reflexivity|lia].
+    - exists (FKnot i). simpl. destruct (Nat.ltb_spec i (length p)); [lia|reflexivity]. }
+  assert (Hnk : forall g, (forall i, g <> FKnot i) -> get o' g = get o g).
+  { intros g Hg. rewrite G. destruct g; try reflexivity. exfalso. eapply Hg; reflexivity. }
+  split; [|split; [eapply rel_reindex; eauto|reflexivity]].
+  constructor.
+  - unfold keys_nodup, o', step_permute. cbn [slots]. apply (nodup_perm_slots (fun j => get o (FKnot j))). apply (oi_keys I).
+  - intros g. rewrite G. apply (oi_ok I).
+  - intros g id b Hg. rewrite G in Hg. pose proof (oi_claims I _ _ _ Hg) as Hb. rewrite Hb.
+    destruct g as [ | | | | | | | | |i| |i|i|i|i]; try reflexivity.
+    + (* FCoeff *) unfold claim, o', step_permute. cbn [naxes with_shape]. rewrite prod_permute; [reflexivity|].
+      rewrite (oi_len I). exact Hp.
+    + (* FKnot i *) simpl perm_src in *. destruct (Nat.ltb_spec i (length p)) as [A|A].
+      2:{ exfalso. assert (i < ndim o) by (apply knot_dom; [exact I|rewrite Hg; discriminate]). fold n in H. lia. }
+      unfold claim, o', step_permute. cbn [nknots orders with_shape]. rewrite !nth_permute by exact A. reflexivity.
+  - intros g Hg. change (ndim o') with n. change (naux o') with (naux o). rewrite G in Hg.
+    destruct g; try (apply (oi_dom I _ Hg)). simpl in Hg.
+    destruct (Nat.ltb_spec i (length p)) as [A|A]; [|apply (oi_dom I _ Hg)].
+    apply tbl_fields_full. apply in_tbl_fields. right. exists i. split; [lia|reflexivity].
+  - change (naux o') with (naux o). intros Hk. rewrite Hnk by (intros; discriminate). apply (oi_aux0 I Hk).
+  - change (naux o') with (naux o). intros i Hi. rewrite !Hnk by (intros; discriminate). apply (oi_auxi I _ Hi).
+  - apply (oi_auxlen I).
+  - unfold o', step_permute. cbn [naxes ndim with_shape]. unfold permute_list. rewrite map_length. exact Hlen.
+  - intros E. contradiction.
+  - intros _ g Hg. change (ndim o') with n in Hg. rewrite G. apply in_tbl_fields in Hg. destruct Hg as [Hg|[i [Hi ->]]].
+    + assert (perm_src p g = g) as -> by (simpl in Hg; intuition (subst; reflexivity)).
+      apply (oi_tbl I E0). apply in_tbl_fields. left. exact Hg.
+    + simpl. destruct (Nat.ltb_spec i (length p)); [|lia]. apply (oi_tbl I E0). apply in_tbl_fields. right.
+      exists (nth i p 0). split; [apply Hlt; exact Hi|reflexivity].
+Qed.
